@@ -212,6 +212,7 @@ class AbsoluteSequence(AbstractSequence):
         for msg in self._messages:
             message_original_time = msg.time
             message_to_append = msg
+            note_key = (msg.channel, msg.note)
 
             # Positions the note would land at according to each of the quantisation parameters
             positions_left = [(message_original_time // step_size) * step_size for step_size in step_sizes]
@@ -226,26 +227,26 @@ class AbsoluteSequence(AbstractSequence):
                 message_to_append.time = valid_positions[find_minimal_distance(message_original_time, valid_positions)]
 
                 # Check if note was not yet closed
-                if msg.note in open_messages:
+                if note_key in open_messages:
                     AbsoluteSequence.LOGGER.info(f"Quantisation: Note {msg.note} not previously stopped.")
                     quantised_messages.append(
                         Message(message_type=MessageType.NOTE_OFF, channel=msg.channel, note=msg.note,
                                 time=message_to_append.time))
-                    open_messages.pop(msg.note, None)
-                    message_timings[msg.note].append(message_to_append.time)
+                    open_messages.pop(note_key, None)
+                    message_timings[note_key].append(message_to_append.time)
 
                 # Check if we can open note without overlaps
-                if msg.note not in message_timings \
-                        or not message_to_append.time < message_timings[msg.note][1]:
-                    open_messages[msg.note] = message_to_append.time
-                    message_timings[msg.note] = [message_to_append.time]
+                if note_key not in message_timings \
+                        or not message_to_append.time < message_timings[note_key][1]:
+                    open_messages[note_key] = message_to_append.time
+                    message_timings[note_key] = [message_to_append.time]
                 # In this case note would overlap with other, existing note
                 else:
                     message_to_append = None
             elif msg.message_type == MessageType.NOTE_OFF:
                 # Message is currently open, have to quantize
-                if msg.note in open_messages:
-                    note_open_timing = open_messages.pop(msg.note)
+                if note_key in open_messages:
+                    note_open_timing = open_messages.pop(note_key)
 
                     # Add possible positions for stop messages, making sure the belonging note is not smothered
                     for position in possible_positions:
@@ -260,7 +261,7 @@ class AbsoluteSequence(AbstractSequence):
                     # after, and if initially no valid position was found note length will be set to 0
                     message_to_append.time = valid_positions[
                         find_minimal_distance(message_original_time, valid_positions)]
-                    message_timings[msg.note].append(message_to_append.time)
+                    message_timings[note_key].append(message_to_append.time)
 
                 # Message is not currently open (e.g., if start message was removed due to an overlap)
                 else:
@@ -279,9 +280,9 @@ class AbsoluteSequence(AbstractSequence):
         # Get indices of violating messages
         for i, msg in enumerate(quantised_messages):
             if msg.message_type == MessageType.NOTE_ON:
-                message_timings_with_indices[msg.note] = (i, msg.time)
+                message_timings_with_indices[(msg.channel, msg.note)] = (i, msg.time)
             elif msg.message_type == MessageType.NOTE_OFF:
-                j, time = message_timings_with_indices.pop(msg.note)
+                j, time = message_timings_with_indices.pop((msg.channel, msg.note))
                 if msg.time - time <= 0:
                     original_indices_to_remove.extend([j, i])
 
